@@ -80,9 +80,9 @@ type Event struct {
 type Call struct {
 	ID       int
 	Kind     int
-	Lo       int   // generations dialled - 1, sampled immediately before the API call
-	HookGen  int   // the same, sampled inside writeFrame (after the socket capture) on the caller's goroutine; -1 if never reached
-	Hi       int   // sampled after the call returned
+	Lo       int // generations dialled - 1, sampled immediately before the API call
+	HookGen  int // the same, sampled inside writeFrame (after the socket capture) on the caller's goroutine; -1 if never reached
+	Hi       int // sampled after the call returned
 	Start    time.Time
 	End      time.Time
 	Res      int
@@ -118,15 +118,18 @@ type Peer struct {
 	resume     chan struct{}
 
 	// independent counts
-	DataRecv  atomic.Int64 // complete data frames read from the connection under test
-	DataSent  atomic.Int64 // complete data frames written to it (write returned nil)
-	Selected  atomic.Bool  // Select.rsp(0) was written
-	CtrlSeen  [10]atomic.Int64 // control frames read, by SType
-	EOF       chan struct{}
-	closed    chan struct{}
-	tmu       sync.Mutex // orders the T event against W events of this peer
-	tdone     bool
-	closeOnce sync.Once
+	DataRecv atomic.Int64 // complete data frames read from the connection under test
+	DataSent atomic.Int64 // complete data frames written to it (write returned nil)
+	// DataSentMaybe: SECS-I blocks completely written whose ACK never arrived (the generation ended in
+	// between): the connection under test may or may not have accepted them
+	DataSentMaybe atomic.Int64
+	Selected      atomic.Bool      // Select.rsp(0) was written
+	CtrlSeen      [10]atomic.Int64 // control frames read, by SType
+	EOF           chan struct{}
+	closed        chan struct{}
+	tmu           sync.Mutex // orders the T event against W events of this peer
+	tdone         bool
+	closeOnce     sync.Once
 	// Held holds W-bit primaries the peer has not answered (Mute), so a scenario can answer later.
 	hmu  sync.Mutex
 	Held [][]byte
@@ -574,6 +577,8 @@ func (p *Peer) SendData(f []byte) error {
 	if err == nil {
 		p.env.record(Event{Typ: 'D', G: p.Gen})
 		p.DataSent.Add(1)
+	} else if errors.Is(err, errS1Unacked) {
+		p.DataSentMaybe.Add(1)
 	}
 	return err
 }
